@@ -53,6 +53,8 @@ pub struct Ctx {
     pub sub_evals: u64,
     /// distinct non-trivial signatures of sub-cases (for scenarios that enumerate inside one run)
     pub sub_sigs: Vec<u64>,
+    ticks: u64,
+    last_beat: Option<std::time::Instant>,
 }
 impl Ctx {
     pub fn new(property: &str, tier: Tier, open: &BTreeSet<String>) -> Ctx {
@@ -67,6 +69,24 @@ impl Ctx {
             open_findings: open.clone(),
             sub_evals: 0,
             sub_sigs: vec![],
+            ticks: 0,
+            last_beat: None,
+        }
+    }
+    /// heartbeat for long enumerations inside one run (feeds the supervisor's stall watchdog only;
+    /// never influences a decision of the run)
+    pub fn tick(&mut self) {
+        self.ticks += 1;
+        if self.ticks % 256 == 0 {
+            let now = std::time::Instant::now();
+            if self.last_beat.map(|t| now.duration_since(t).as_secs() >= 5).unwrap_or(true) {
+                self.last_beat = Some(now);
+                use std::io::Write;
+                let so = std::io::stdout();
+                let mut l = so.lock();
+                let _ = writeln!(l, "T");
+                let _ = l.flush();
+            }
         }
     }
     pub fn probe(&mut self, name: &str) {
@@ -400,6 +420,7 @@ pub struct BatchResult {
 }
 
 enum Msg {
+    Tick(usize),
     Begin(usize, u64),
     Viol(usize, u64, Value),
     Harness(usize, String),
@@ -444,6 +465,7 @@ fn spawn_worker(wid: usize, scenario: &str, property: &str, tier: Tier, seed: u6
                     it.next().and_then(|j| serde_json::from_str::<Value>(j).ok()).map(|v| Msg::Viol(wid, idx, v))
                 }
                 "H" => Some(Msg::Harness(wid, rest.to_string())),
+                "T" => Some(Msg::Tick(wid)),
                 "C" => serde_json::from_str::<ChunkStats>(rest).ok().map(|c| Msg::Chunk(wid, Box::new(c))),
                 _ => None,
             };
@@ -520,6 +542,9 @@ pub fn run_batch(cfg: &BatchCfg) -> BatchResult {
             res.stopped_early = true;
         }
         match rx.recv_timeout(Duration::from_millis(500)) {
+            Ok(Msg::Tick(w)) => {
+                workers[w].last_activity = Instant::now();
+            }
             Ok(Msg::Begin(w, idx)) => {
                 workers[w].last_begin = Some(idx);
                 workers[w].last_activity = Instant::now();
@@ -670,7 +695,9 @@ pub fn eval_subprocess(scenario: &str, property: &str, tier: Tier, case: &Value,
         }
     };
     let status = child.wait().ok();
-    match serde_json::from_str::<EvalOut>(out.trim()) {
+    // heartbeat lines may precede the result: the result is the last line
+    let last = out.lines().rev().find(|l| !l.trim().is_empty()).unwrap_or("");
+    match serde_json::from_str::<EvalOut>(last.trim()) {
         Ok(e) => e,
         Err(_) => {
             let sig = status.map(|s| describe_status(&s)).unwrap_or_else(|| "unknown".into());
